@@ -87,7 +87,10 @@ def run_tlc(module, cfg_path, workers=8, timeout=900, extra=None, xmx="8g", env_
     m = re.search(r"Error: Action property (\S+) is violated", out)
     if m:
         res["violated"] = m.group(1)
-    if "Temporal properties were violated" in out:
+    m = re.search(r"Temporal propert(?:y|ies) (.*?) (?:was|were) violated", out)
+    if m:
+        res["violated"] = "temporal:" + m.group(1)
+    elif "Temporal properties were violated" in out:
         res["violated"] = "temporal"
     res["completed"] = "Model checking completed. No error has been found." in out or "Finished computing" in out and "Error" not in out
     if p.returncode == 124:
